@@ -284,7 +284,7 @@ fn analyse(input: &Input) -> Analysis {
         ranges.dedup();
         for (o, wd) in extra {
             if let Some((s, l, tag)) = ranges.iter().find(|(s, l, _)| o >= *s && o + wd as usize <= s + l) {
-                fields.push(Field { off: o, w: wd, role: "value", level: "table", tbl: tag.clone(), name: "hook".to_string(), tstart: *s, tlen: *l, selfv: -1, parentv: -1 });
+                fields.push(Field { off: o, w: wd, role: "value", level: "table", tbl: tag.clone(), name: "hook".to_string(), tstart: *s, tlen: *l, selfv: -1, parentv: -1, prevo: -1, nexto: -1 });
             }
         }
     }
@@ -418,7 +418,8 @@ fn champions(analyses: &[(String, usize, Analysis)]) -> BTreeMap<usize, Champ> {
     let mut per: BTreeMap<String, BTreeMap<usize, BTreeSet<String>>> = BTreeMap::new();
     for (i, (_, _, an)) in analyses.iter().enumerate() {
         for f in &an.fields {
-            if f.level == "table" && f.role != "value" && f.name != "hook" {
+            // value fields count when they are elements of an array (relational classes)
+            if f.level == "table" && (f.role != "value" || f.prevo >= 0 || f.nexto >= 0) && f.name != "hook" {
                 per.entry(f.tbl.clone()).or_default().entry(i).or_default().insert(norm_name(&f.name));
             }
         }
@@ -510,6 +511,11 @@ impl<'a> Planner<'a> {
             let c: Vec<usize> = c.into_iter().filter(|&i| faults::has_ref(&a.vc, self.an.fields[i].selfv, self.an.fields[i].parentv)).collect();
             let n = c.len();
             (c, n)
+        } else if a.k == "Overwrite" && faults::is_rel_class(&a.vc) {
+            // a relational class needs a field that is an element of an array with a sibling on that side
+            let c: Vec<usize> = c.into_iter().filter(|&i| faults::has_sib(&a.vc, self.an.fields[i].prevo, self.an.fields[i].nexto)).collect();
+            let n = c.len();
+            (c, n)
         } else {
             (c, ns)
         }
@@ -574,8 +580,12 @@ fn build_plan(tier: &str, seed: u64, name: &str, an: &Analysis, cases: &Cases, c
                 let (c, ns) = pl.cands(a);
                 let c = &c[..];
                 let trunc = a.k == "Truncate";
+                let rel = faults::is_rel_class(&a.vc);
                 let chosen: Vec<usize> = if a.level == "dir" {
-                    if !trunc {
+                    if !trunc && rel {
+                        // the directory records of every input are read by the same code: a seeded sample per input
+                        sample(c, if quick { 4 } else { 8 }, &[seed, pl.input_hash, ai as u64, 12])
+                    } else if !trunc {
                         c.to_vec() // every directory / header field, both tiers
                     } else {
                         let k = if quick { 6 } else { 40 };
@@ -586,7 +596,9 @@ fn build_plan(tier: &str, seed: u64, name: &str, an: &Analysis, cases: &Cases, c
                     // the reference; and everything this input is the champion for
                     let k = if trunc { 1 } else if faults::is_ref_class(&a.vc) { 12 } else { 2 };
                     let mut v = sample(c, k, &[seed, pl.input_hash, ai as u64, 8]);
-                    if !trunc && a.role != "value" {
+                    // champions: every structural non-value field x every class; every element of an array
+                    // (value fields included) x every relational class
+                    if !trunc && (a.role != "value" || rel) {
                         v.extend(c[..ns].iter().copied().filter(|&fi| {
                             let f = &an.fields[fi];
                             champ.get(&f.tbl).map_or(false, |names| names.contains(&norm_name(&f.name)))
@@ -1089,9 +1101,20 @@ fn supervisor(tier: &str, seed: u64, cases: &str, outdir: &str, nworkers: usize)
     let mut struct_fields: BTreeMap<String, BTreeMap<String, u64>> = BTreeMap::new();
     let mut ref_fields: BTreeMap<String, u64> = BTreeMap::new();
     let mut planned: BTreeMap<String, BTreeMap<String, u64>> = BTreeMap::new();
+    // relational classes: fields that are elements of an array per table kind ("dir" = container level) and side;
+    // planned single overwrites per table kind and class that change the bytes (computed from the input bytes)
+    let mut rel_fields: BTreeMap<String, BTreeMap<String, u64>> = BTreeMap::new();
+    let mut rel_planned: BTreeMap<String, BTreeMap<String, u64>> = BTreeMap::new();
+    let kind_of_field = |f: &Field| if f.level == "dir" { "dir".to_string() } else { f.tbl.clone() };
     for (i, s) in specs.iter().enumerate() {
         let an = &analyses[i].2;
         for f in &an.fields {
+            if f.prevo >= 0 {
+                *rel_fields.entry(kind_of_field(f)).or_default().entry("prev".to_string()).or_insert(0) += 1;
+            }
+            if f.nexto >= 0 {
+                *rel_fields.entry(kind_of_field(f)).or_default().entry("next".to_string()).or_insert(0) += 1;
+            }
             if f.level == "table" && f.name != "hook" {
                 *struct_fields.entry(f.tbl.clone()).or_default().entry(f.role.to_string()).or_insert(0) += 1;
             }
@@ -1100,11 +1123,25 @@ fn supervisor(tier: &str, seed: u64, cases: &str, outdir: &str, nworkers: usize)
             }
         }
         let plan = build_plan(tier, seed, &s.name, an, &cases_v, champs.get(&i).unwrap_or(&Champ::new()));
-        for j in &plan {
-            if let [CF::Ov(fi, _)] = j.faults[..] {
+        let inbuf = load_input(s).map(|x| x.buf).unwrap_or_default();
+        for (ji, j) in plan.iter().enumerate() {
+            if let [CF::Ov(fi, vi)] = j.faults[..] {
                 let f = &an.fields[fi];
                 if f.level == "table" && f.name != "hook" {
                     *planned.entry(f.tbl.clone()).or_default().entry(f.role.to_string()).or_insert(0) += 1;
+                }
+                let vc = VCS[vi];
+                if faults::is_rel_class(vc) {
+                    let (pb, nb) = (faults::sibling(&inbuf, f.prevo, f.w), faults::sibling(&inbuf, f.nexto, f.w));
+                    let there = (!faults::is_prev_class(vc) || pb.is_some()) && (!faults::is_next_class(vc) || nb.is_some());
+                    // as `relevant_groups`: is there a group the job is run with
+                    let salt = h(&[seed, hs(&s.name), ji as u64, 0x6060]);
+                    let observed = f.level == "dir" || salt % 16 == 0 || (1..GROUPS.len()).any(|g| an.touched[g].contains("*") || an.touched[g].contains(&f.tbl));
+                    if let Some(old) = faults::rd(&inbuf, f.off, f.w).filter(|_| there && observed) {
+                        if faults::new_value(vc, old, f.w, inbuf.len() as u64, f.tlen as u64, f.selfv, f.parentv, pb, nb) != old {
+                            *rel_planned.entry(kind_of_field(f)).or_default().entry(vc.to_string()).or_insert(0) += 1;
+                        }
+                    }
                 }
             }
         }
@@ -1264,6 +1301,8 @@ fn supervisor(tier: &str, seed: u64, cases: &str, outdir: &str, nworkers: usize)
     tot.insert("struct_fields_per_table_role".into(), json!(struct_fields));
     tot.insert("planned_single_overwrites_per_table_role".into(), json!(planned));
     tot.insert("ref_fields".into(), json!(ref_fields));
+    tot.insert("rel_fields_per_table_kind".into(), json!(rel_fields));
+    tot.insert("planned_effective_relational_overwrites_per_table_kind".into(), json!(rel_planned));
     tot.insert("champions".into(), json!(champs.iter().map(|(i, c)| (specs[*i].name.clone(), c.iter().map(|(t, n)| (t.clone(), n.len())).collect::<BTreeMap<_, _>>())).collect::<BTreeMap<_, _>>()));
     std::fs::write(format!("{}/inputs.json", outdir), serde_json::to_string(&per_input).unwrap()).unwrap();
     println!("{}", Value::Object(tot));
@@ -1284,7 +1323,9 @@ fn replay(mc: &str, trace: &str, mism: &str) {
             let old: Vec<u8> = c["old"].as_array().unwrap().iter().map(|x| x.as_u64().unwrap() as u8).collect();
             let w = old.len() as u8;
             let ov = old.iter().fold(0u64, |a, &b| (a << 8) | b as u64);
-            let nv = faults::new_value(c["vc"].as_str().unwrap(), ov, w, c["flen"].as_u64().unwrap(), c["tlen"].as_u64().unwrap(), c["sv"].as_i64().unwrap_or(-1), c["pv"].as_i64().unwrap_or(-1));
+            // bytes of the previous / next element: [] = none
+            let sib = |k: &str| -> Option<u64> { c[k].as_array().filter(|a| !a.is_empty()).map(|a| a.iter().fold(0u64, |x, b| (x << 8) | b.as_u64().unwrap())) };
+            let nv = faults::new_value(c["vc"].as_str().unwrap(), ov, w, c["flen"].as_u64().unwrap(), c["tlen"].as_u64().unwrap(), c["sv"].as_i64().unwrap_or(-1), c["pv"].as_i64().unwrap_or(-1), sib("pb"), sib("nb"));
             let got: Vec<u64> = (0..w as usize).map(|k| (nv >> (8 * (w as usize - 1 - k))) & 0xff).collect();
             if json!(got) != c["new"] {
                 mw.write(&json!({"what": "value class", "case": c, "got": got}));
